@@ -182,7 +182,7 @@ def run(rep, tier, seed):
     big_jobs = [(sh, stride, part, 8) for sh, stride in BIG_WORLDS for part in range(8)]
     rep.bounds['big_worlds'] = {'worlds': [list(sh) for sh, _ in BIG_WORLDS], 'areas_fully_transparent': len(BIG_AREAS_FT),
                                 'areas_occluding': len(BIG_AREAS_OCCL), 'largest_view_cells': 121}
-    for n, states, cases, fl, sample in pmap(_big_work, big_jobs) + pmap(_work, jobs):
+    for n, states, cases, fl, sample in dyn.pmap_w('big', _big_work, big_jobs) + dyn.pmap_w('work', _work, jobs):
         tot[0] += n
         tot[1] += states
         tot[2] += cases
@@ -199,3 +199,6 @@ def run(rep, tier, seed):
         rule='case = (labelled grid with opaque subset, pose, area, function) compared across its 4 rotated copies; '
         'states counts the rotated copies; every case is non-trivial (non-square shapes and asymmetric areas included)',
     )
+
+
+WORKERS = {'big': _big_work, 'work': _work}
